@@ -95,6 +95,9 @@ def W9_pairing(rep, flow: Flow):
                     for v in ho.fields.values():
                         if isinstance(v, Ref) and r.heap[v.oid].kind == "list":
                             rec_lists.add(v.oid)
+            if o.meta.get("generator"):
+                rep.finding("W9", f"{fq}:generator", f"{f.module.rel} {f.qualname}: returns a generator expression (created at {o.meta['generator']}), not a list: it has no length, cannot be indexed and is empty after the first traversal - the bases can be paired with the circuits only once")
+                continue
             # WHICH of the record's lists: circuits for get_mub_circuits, bases for get_mubs
             src_oid = o.oid if o.oid in rec_lists else (o.meta.get("elementwise_of") if o.meta.get("elementwise_of") in rec_lists else None)
             if src_oid is not None:
@@ -875,7 +878,19 @@ def W3_indexing(rep, flow: Flow):
     nodes = [fit.node] + ([mm.node for mm in fit.cls.methods.values()] if fit.cls is not None else [])
     used = [n for nd in nodes for n in ast.walk(nd) if isinstance(n, ast.Subscript) and isinstance(n.slice, ast.Attribute) and n.slice.attr == attr]
     gc = [n for nd in nodes for n in ast.walk(nd) if isinstance(n, ast.Call) and isinstance(n.func, ast.Attribute) and n.func.attr == "get_counts"]
-    if attr and (used or any(n.args or n.keywords for n in gc)):
+    def is_index(e):
+        return isinstance(e, ast.Attribute) and e.attr == attr
+    by_index = [n for n in gc if any(is_index(a) for a in n.args) or any(is_index(k.value) for k in n.keywords)]
+    by_other = [n for n in gc if (n.args or n.keywords) and n not in by_index]
+    if attr and by_other and not used and not by_index:
+        # get_counts(<circuit>) selects the experiment by the circuit's NAME: right only if the builder names its circuits apart
+        full = flow.prog.func("tomography.full_state_tomography_circuits")
+        names_set = any(isinstance(n, ast.Attribute) and n.attr == "name" and isinstance(n.ctx, ast.Store) for n in ast.walk(full.node))
+        n0 = by_other[0]
+        if names_set:
+            raise AnalysisError(f"{pyfacts.where(fit, n0)}: the counts are selected by `{ast.unparse(n0)}` (experiment looked up by circuit name) and the builder assigns names: whether they are unique is not decidable here")
+        rep.finding("W3", f"{A_FITTER}:index-use", f"{pyfacts.where(fit, n0)}: the counts are selected by `{ast.unparse(n0)}`; the result object looks an experiment up by the circuit's NAME, and the tomography builder gives every circuit the name of the preparation circuit (compose keeps it, no name is assigned): every basis is evaluated with the first experiment's counts; the stored index `{attr}` is not used")
+    elif attr and (used or by_index):
         rep.ok("W3", 1, nontrivial="use", sample=f"counts[self.{attr}]")
     else:
         rep.finding("W3", f"{A_FITTER}:index-use", f"{fit.module.rel} {fit.qualname}: the stored result index is not used to select the counts of this circuit")
@@ -1088,8 +1103,12 @@ def W1_W2_builders(rep, flow: Flow, want=("W1", "W2"), builders=None):
                     term = c.term
                     last = term[1][-1] if term[0] == "seq" and term[1] else term
                     n_meas = sum(1 for (leaf, *_x) in t_leaves(term) if leaf[0] == "measure")
-                    if last[0] == "unknown" or any(leaf[0] == "unknown" for (leaf, *_x) in t_leaves(term)):
-                        pass          # unmodelled circuit operation: the measurement may be inside it (other rules refuse)
+                    unk = [leaf for (leaf, *_x) in t_leaves(term) if leaf[0] == "unknown"] + ([last] if last[0] == "unknown" else [])
+                    if unk and any("measure_active" in str(u[1]) for u in unk):
+                        rep.finding(rid0, f"{fq}:measurement", f"{f.module.rel} {f.qualname} return path #{pi}: the circuit is measured with measure_active(), which gives a classical bit only to qubits some gate acts on: a qubit that preparation and readout leave idle is not measured, the count keys get shorter and the bits above it move down - the fitter reads key position j as register qubit j ({unk[0][1][:100]})")
+                        continue
+                    elif unk:
+                        raise AnalysisError(f"{f.module.rel} {f.qualname} return path #{pi}: the returned circuit is changed by an operation the interpreter does not model ({unk[0][1][:120]}): whether it ends in one measurement of the whole register cannot be decided")
                     elif not (last[0] == "measure" and n_meas == 1):
                         rep.finding(rid0, f"{fq}:measurement", f"{f.module.rel} {f.qualname} return path #{pi}: the returned circuit " + ("is not measured at all" if n_meas == 0 else "does not end in exactly one final measurement") + " (circuit term: preparation, readout, then measure_all is required)")
                         continue
